@@ -1884,7 +1884,7 @@ Qed.
 Lemma bmon_soft_none : forall ev nb,
   forallb bsoft ev = true -> bmon_run (None, nb) ev = Some (None, nb).
 Proof.
-  induction ev as [|e ev IH]; intros nb H; simpl in *; auto.
+  induction ev as [|e ev IH]; intros nb H; cbn [bmon_run forallb] in *; auto.
   apply andb_prop in H. destruct H as (H1 & H2).
   assert (bmon_step (None, nb) e = Some (None, nb)) as St by (destruct e; simpl in *; auto; discriminate).
   rewrite St. now apply IH.
@@ -2008,4 +2008,306 @@ Proof.
   pose proof (api_nostop fx s o Ho) as (A1 & A2 & A3). destruct (api fx s o) as [s1 e1].
   pose proof (IH s1 Hl) as (B1 & B2 & B3). destruct (apis fx s1 l) as [s2 e2]. simpl in *.
   repeat split; [now rewrite forallb_app, A1, B1|auto|congruence].
+Qed.
+
+(* the precondition DESIGN names: no uv_udp_recv_stop from inside a chunk callback *)
+Definition no_stop_in_chunk_cb (rbeh : nat -> bool -> list op) : Prop :=
+  forall k, ~ In ORecvStop (rbeh k true).
+
+Definition whole_ok (ch : bool) (flags : Z) : bool :=
+  negb (has_flag flags UV_UDP_MMSG_CHUNK) && (negb ch || has_flag flags UV_UDP_MMSG_FREE).
+
+Lemma recv_cb_whole fx rbeh s b ch nb nread msg flags :
+  whole_ok ch flags = true ->
+  bmon_run (Some (b, ch, false), nb) (snd (recv_cb fx rbeh s b Whole nread msg flags)) = Some (None, nb) /\
+  next_buf (fst (recv_cb fx rbeh s b Whole nread msg flags)) = next_buf s.
+Proof.
+  intros Hf. unfold recv_cb.
+  match goal with |- context [apis fx ?S1 ?L] => pose proof (apis_soft fx L S1) as (A1 & A2);
+    destruct (apis fx S1 L) as [s2 ev] end.
+  simpl in *. rewrite Nat.eqb_refl. unfold whole_ok in Hf. rewrite Hf.
+  split; [now apply bmon_soft_none|exact A2].
+Qed.
+
+Lemma recv_cb_chunk fx rbeh s b k ch nb nread msg flags :
+  no_stop_in_chunk_cb rbeh -> recving s = true -> has_flag flags UV_UDP_MMSG_CHUNK = true ->
+  let r := recv_cb fx rbeh s b (Chunk k) nread msg flags in
+  bmon_run (Some (b, ch, false), nb) (snd r) = Some (Some (b, true, false), nb) /\
+  recving (fst r) = true /\ next_buf (fst r) = next_buf s.
+Proof.
+  intros Hn Hr Hf. unfold recv_cb.
+  match goal with |- context [apis fx ?S1 ?L] =>
+    pose proof (apis_nostop fx L S1 (Hn _)) as (A1 & A2 & A3); destruct (apis fx S1 L) as [s2 ev] end.
+  simpl in *. rewrite Nat.eqb_refl, Hf. split; [now apply bmon_quiet|]. split; auto.
+Qed.
+
+Lemma chunk_flag x : has_flag (UV_UDP_MMSG_CHUNK + msg_flags x) UV_UDP_MMSG_CHUNK = true.
+Proof. unfold msg_flags. destruct (m_trunc x); reflexivity. Qed.
+
+Lemma chunk_cbs_b fx rbeh b nb : forall ms k s ch,
+  no_stop_in_chunk_cb rbeh -> recving s = true ->
+  let r := chunk_cbs fx rbeh s b k ms in
+  exists ch', bmon_run (Some (b, ch, false), nb) (snd r) = Some (Some (b, ch', false), nb) /\
+    (ms <> [] -> ch' = true) /\ recving (fst r) = true /\ next_buf (fst r) = next_buf s.
+Proof.
+  induction ms as [|x ms IH]; intros k s ch Hn Hr; cbn [chunk_cbs].
+  - exists ch. simpl. repeat split; auto. congruence.
+  - rewrite Hr.
+    pose proof (recv_cb_chunk fx rbeh s b k ch nb (m_len x) (Some (m_id x))
+                  (UV_UDP_MMSG_CHUNK + msg_flags x) Hn Hr (chunk_flag x)) as (A1 & A2 & A3).
+    destruct (recv_cb fx rbeh s b (Chunk k) (m_len x) (Some (m_id x)) (UV_UDP_MMSG_CHUNK + msg_flags x))
+      as [s1 e1].
+    destruct (IH (S k) s1 true Hn A2) as (ch' & B1 & B2 & B3 & B4).
+    destruct (chunk_cbs fx rbeh s1 b (S k) ms) as [s2 e2]. simpl in *.
+    assert (ch' = true). { destruct ms; [simpl in B1; inversion B1; reflexivity|apply B2; discriminate]. }
+    subst ch'. exists true. rewrite bmon_run_app, A1. repeat split; auto. congruence.
+Qed.
+
+Lemma recv_retry_bquiet mk : (forall a, bquiet (mk a) = true) ->
+  forall o a ev o', recv_retry mk o = (a, ev, o') -> forallb bquiet ev = true.
+Proof.
+  intros Hmk. induction o as [|x o IH]; intros a ev o' H; simpl in H.
+  - inversion H; subst. simpl. now rewrite Hmk.
+  - destruct x as [l|e].
+    + inversion H; subst. simpl. now rewrite Hmk.
+    + destruct (e =? EINTR).
+      * destruct (recv_retry mk o) as [[a1 ev1] o1] eqn:E. inversion H; subst.
+        simpl. rewrite Hmk. eapply IH; eauto.
+      * inversion H; subst. simpl. now rewrite Hmk.
+Qed.
+
+Lemma udp_recvmmsg_b fx rbeh s b len nb :
+  no_stop_in_chunk_cb rbeh -> recving s = true ->
+  let r := fst (udp_recvmmsg fx rbeh s b len) in
+  bmon_run (Some (b, false, false), nb) (snd r) = Some (None, nb) /\ next_buf (fst r) = next_buf s.
+Proof.
+  intros Hn Hr. unfold udp_recvmmsg.
+  set (chunks := if Z.of_nat BATCH <? len / DGRAM_MAXSIZE then Z.of_nat BATCH else len / DGRAM_MAXSIZE).
+  destruct (recv_retry (fun a => ERSys true chunks (rclamp (Z.to_nat chunks) a)) (orv s))
+    as [[a0 ev] o'] eqn:E.
+  pose proof (recv_retry_bquiet _ (fun a => eq_refl) _ _ _ _ E) as Hq.
+  destruct (rclamp (Z.to_nat chunks) a0) as [[|x ms]|e].
+  - pose proof (recv_cb_whole fx rbeh (set_orv o' (allocs s) s) b false nb 0 None 0 eq_refl) as (A1 & A2).
+    destruct (recv_cb fx rbeh (set_orv o' (allocs s) s) b Whole 0 None 0) as [s2 e2].
+    simpl in *. rewrite bmon_run_app, (bmon_quiet _ _ Hq). auto.
+  - destruct (chunk_cbs_b fx rbeh b nb (x :: ms) 0 (set_orv o' (allocs s) s) false Hn Hr)
+      as (ch' & B1 & B2 & B3 & B4).
+    destruct (chunk_cbs fx rbeh (set_orv o' (allocs s) s) b 0 (x :: ms)) as [s2 e2].
+    simpl in B1, B3, B4. rewrite B3.
+    assert (ch' = true) by (apply B2; discriminate). subst ch'.
+    pose proof (recv_cb_whole fx rbeh s2 b true nb 0 None UV_UDP_MMSG_FREE eq_refl) as (A1 & A2).
+    destruct (recv_cb fx rbeh s2 b Whole 0 None UV_UDP_MMSG_FREE) as [s3 e3].
+    simpl in *. rewrite bmon_run_app, (bmon_quiet _ _ Hq), bmon_run_app, B1. split; [exact A1|congruence].
+  - pose proof (recv_cb_whole fx rbeh (set_orv o' (allocs s) s) b false nb
+                  (if e =? EAGAIN then 0 else - e) None 0 eq_refl) as (A1 & A2).
+    destruct (recv_cb fx rbeh (set_orv o' (allocs s) s) b Whole (if e =? EAGAIN then 0 else - e) None 0)
+      as [s2 e2].
+    simpl in *. rewrite bmon_run_app, (bmon_quiet _ _ Hq). auto.
+Qed.
+
+Lemma whole_ok_msg x : whole_ok false (msg_flags x) = true.
+Proof. unfold msg_flags. destruct (m_trunc x); reflexivity. Qed.
+
+Lemma recv_round_b fx rbeh s b len count nb s2 ev nread c' :
+  no_stop_in_chunk_cb rbeh -> recving s = true ->
+  recv_round fx rbeh s b len count = (s2, ev, nread, c') ->
+  bmon_run (Some (b, false, false), nb) ev = Some (None, nb) /\ next_buf s2 = next_buf s.
+Proof.
+  intros Hn Hr. unfold recv_round. destruct (mmsg s).
+  - pose proof (udp_recvmmsg_b fx rbeh s b len nb Hn Hr) as H.
+    destruct (udp_recvmmsg fx rbeh s b len) as [[s1 e1] nr]. simpl in H.
+    intros Heq. inversion Heq; subst. exact H.
+  - destruct (recv_retry (fun a => ERSys false 1 (rclamp 1 a)) (orv s)) as [[a0 e0] o'] eqn:E.
+    pose proof (recv_retry_bquiet _ (fun a => eq_refl) _ _ _ _ E) as Hq.
+    destruct (rclamp 1 a0) as [[|x ms]|e].
+    + pose proof (recv_cb_whole fx rbeh (set_orv o' (allocs s) s) b false nb 0 None 0 eq_refl) as (A1 & A2).
+      destruct (recv_cb fx rbeh (set_orv o' (allocs s) s) b Whole 0 None 0) as [s3 e3].
+      intros Heq. inversion Heq; subst. simpl in *. rewrite bmon_run_app, (bmon_quiet _ _ Hq). auto.
+    + pose proof (recv_cb_whole fx rbeh (set_orv o' (allocs s) s) b false nb (m_len x) (Some (m_id x))
+                    (msg_flags x) (whole_ok_msg x)) as (A1 & A2).
+      destruct (recv_cb fx rbeh (set_orv o' (allocs s) s) b Whole (m_len x) (Some (m_id x)) (msg_flags x))
+        as [s3 e3].
+      intros Heq. inversion Heq; subst. simpl in *. rewrite bmon_run_app, (bmon_quiet _ _ Hq). auto.
+    + pose proof (recv_cb_whole fx rbeh (set_orv o' (allocs s) s) b false nb
+                    (if e =? EAGAIN then 0 else - e) None 0 eq_refl) as (A1 & A2).
+      destruct (recv_cb fx rbeh (set_orv o' (allocs s) s) b Whole (if e =? EAGAIN then 0 else - e) None 0)
+        as [s3 e3].
+      intros Heq. inversion Heq; subst. simpl in *. rewrite bmon_run_app, (bmon_quiet _ _ Hq). auto.
+Qed.
+
+Lemma recvmsg_loop_b fx rbeh : forall fuel s count nb,
+  no_stop_in_chunk_cb rbeh -> recving s = true -> (nb <= next_buf s)%nat ->
+  let r := recvmsg_loop fx fuel rbeh s count in
+  exists nb', bmon_run (None, nb) (snd r) = Some (None, nb') /\ (nb' <= next_buf (fst r))%nat.
+Proof.
+  induction fuel as [|f IH]; intros s count nb Hn Hr Hnb; cbn [recvmsg_loop].
+  - exists nb. simpl. auto.
+  - set (len := match allocs s with [] => 0 | l :: _ => l end).
+    set (s0 := set_ctr (next_seq s) (next_id s) (S (next_buf s)) (ncb s) (nrcb s)
+                       (set_orv (orv s) (tl (allocs s)) s)).
+    assert (Hal : forall ev, bmon_run (None, nb) (EAlloc (next_buf s) len :: ev) =
+                             bmon_run (Some (next_buf s, false, false), S (next_buf s)) ev).
+    { intros ev. cbn [bmon_run bmon_step]. apply Nat.leb_le in Hnb. now rewrite Hnb. }
+    destruct (len <=? 0).
+    + pose proof (recv_cb_whole fx rbeh s0 (next_buf s) false (S (next_buf s)) UV_ENOBUFS None 0 eq_refl)
+        as (A1 & A2).
+      destruct (recv_cb fx rbeh s0 (next_buf s) Whole UV_ENOBUFS None 0) as [s1 e1].
+      exists (S (next_buf s)). cbn [snd fst] in *. rewrite Hal. split; [exact A1|]. rewrite A2. simpl. lia.
+    + destruct (recv_round fx rbeh s0 (next_buf s) len count) as [[[s2 ev] nread] c'] eqn:E.
+      destruct (recv_round_b fx rbeh s0 (next_buf s) len count (S (next_buf s)) s2 ev nread c' Hn Hr E)
+        as (A1 & A2).
+      destruct (negb (nread =? -1) && (0 <? c') && negb (closing s2) && recving s2) eqn:Ec.
+      * apply andb_prop in Ec. destruct Ec as (_ & Hr2).
+        assert (Hnb2 : (S (next_buf s) <= next_buf s2)%nat) by (rewrite A2; simpl; lia).
+        destruct (IH s2 c' (S (next_buf s)) Hn Hr2 Hnb2) as (nb' & B1 & B2).
+        destruct (recvmsg_loop fx f rbeh s2 c') as [s3 ev']. cbn [snd fst] in *.
+        exists nb'. rewrite Hal, bmon_run_app, A1. auto.
+      * exists (S (next_buf s)). cbn [snd fst]. rewrite Hal. split; [exact A1|]. rewrite A2. simpl. lia.
+Qed.
+
+(* one POLLIN dispatch: every buffer alloc_cb handed out is handed back exactly once,
+   chunks only in between, after chunks only with UV_UDP_MMSG_FREE *)
+Theorem recv_buffers_returned_local fx rbeh s nb :
+  no_stop_in_chunk_cb rbeh -> (nb <= next_buf s)%nat ->
+  exists nb', bmon_run (None, nb) (snd (udp_recvmsg fx rbeh s)) = Some (None, nb') /\
+              (nb' <= next_buf (fst (udp_recvmsg fx rbeh s)))%nat.
+Proof.
+  intros Hn Hnb. unfold udp_recvmsg. destruct (recving s) eqn:Hr.
+  - now apply recvmsg_loop_b.
+  - exists nb. simpl. auto.
+Qed.
+
+(* ---- whole runs ---- *)
+Lemma completed_loop_soft fx beh : forall fuel s,
+  let r := completed_loop fx fuel beh s in
+  forallb bsoft (snd r) = true /\ next_buf (fst r) = next_buf s.
+Proof.
+  induction fuel as [|f IH]; intros s; simpl; auto.
+  destruct (cq s) as [|q c]; simpl; auto.
+  match goal with |- context [apis fx ?S2 ?B] => pose proof (apis_soft fx B S2) as (A1 & A2);
+    destruct (apis fx S2 B) as [s3 ev] end.
+  pose proof (IH s3) as (B1 & B2). destruct (completed_loop fx f beh s3) as [s4 ev']. simpl in *.
+  split; [now rewrite forallb_app, A1, B1|congruence].
+Qed.
+
+Lemma run_completed_soft fx beh s :
+  let r := run_completed fx beh s in
+  forallb bsoft (snd r) = true /\ next_buf (fst r) = next_buf s.
+Proof.
+  unfold run_completed.
+  pose proof (completed_loop_soft fx beh (length (cq (set_processing true s))) (set_processing true s))
+    as (A1 & A2).
+  destruct (completed_loop fx _ beh (set_processing true s)) as [s1 ev]. simpl in *.
+  split; auto. destruct (wq s1); [destruct (closing s1)|]; simpl; auto.
+Qed.
+
+Definition bgood (s : st) (nb : nat) (r : st * list event) : Prop :=
+  exists nb', bmon_run (None, nb) (snd r) = Some (None, nb') /\ (nb' <= next_buf (fst r))%nat.
+
+Lemma bgood_soft s nb r :
+  (nb <= next_buf s)%nat -> forallb bsoft (snd r) = true -> next_buf (fst r) = next_buf s -> bgood s nb r.
+Proof. intros Hnb H1 H2. exists nb. split; [now apply bmon_soft_none|lia]. Qed.
+
+Lemma bgood_bind s nb s1 e1 s2 e2 :
+  bgood s nb (s1, e1) -> (forall nb1, (nb1 <= next_buf s1)%nat -> bgood s1 nb1 (s2, e2)) ->
+  bgood s nb (s2, e1 ++ e2).
+Proof.
+  intros (nb1 & R1 & L1) H. destruct (H nb1 L1) as (nb2 & R2 & L2).
+  exists nb2. simpl in *. rewrite bmon_run_app, R1. auto.
+Qed.
+
+Lemma udp_io_b fx beh rbeh s nb rin rout :
+  no_stop_in_chunk_cb rbeh -> (nb <= next_buf s)%nat -> bgood s nb (udp_io fx beh rbeh s rin rout).
+Proof.
+  intros Hn Hnb. unfold udp_io.
+  assert (H1 : bgood s nb (if rin then udp_recvmsg fx rbeh s else (s, []))).
+  { destruct rin; [now apply recv_buffers_returned_local|]. exists nb. simpl. auto. }
+  destruct (if rin then udp_recvmsg fx rbeh s else (s, [])) as [s1 e1].
+  destruct (rout && negb (closing s1)); [|exact H1].
+  pose proof (udp_sendmsg_keeps fx s1) as (K1 & _ & K3).
+  destruct (udp_sendmsg fx s1) as [s2 e2].
+  pose proof (run_completed_soft fx beh s2) as (C1 & C2).
+  destruct (run_completed fx beh s2) as [s3 e3]. simpl in *.
+  apply (bgood_bind s nb s1 e1 s3 (e2 ++ e3) H1). intros nb1 L1.
+  apply bgood_soft; simpl; auto; [|congruence].
+  rewrite forallb_app, C1. now rewrite (bquiet_soft _ K1).
+Qed.
+
+Lemma pending_b fx beh rbeh : forall n s nb,
+  no_stop_in_chunk_cb rbeh -> (nb <= next_buf s)%nat -> bgood s nb (pending fx n beh rbeh s).
+Proof.
+  induction n as [|n IH]; intros s nb Hn Hnb; simpl.
+  - exists nb. simpl. auto.
+  - destruct (fed s); [|exists nb; simpl; auto].
+    pose proof (udp_io_b fx beh rbeh (set_fed false s) nb false true Hn Hnb) as H1.
+    destruct (udp_io fx beh rbeh (set_fed false s) false true) as [s1 e1].
+    destruct (pending fx n beh rbeh s1) as [s2 e2] eqn:E2.
+    apply (bgood_bind s nb s1 e1 s2 e2).
+    + destruct H1 as (nb1 & R1 & L1). exists nb1. auto.
+    + intros nb1 L1. rewrite <- E2. now apply IH.
+Qed.
+
+Lemma finish_close_soft fx beh s :
+  let r := finish_close fx beh s in
+  forallb bsoft (snd r) = true /\ next_buf (fst r) = next_buf s.
+Proof.
+  unfold finish_close.
+  match goal with |- context [run_completed fx beh ?S1] =>
+    pose proof (run_completed_soft fx beh S1) as (A1 & A2); destruct (run_completed fx beh S1) as [s2 ev] end.
+  simpl in *. split; [now rewrite forallb_app, A1|exact A2].
+Qed.
+
+Lemma run_once_b fx beh rbeh s nb kin kout :
+  no_stop_in_chunk_cb rbeh -> (nb <= next_buf s)%nat -> bgood s nb (run_once fx beh rbeh s kin kout).
+Proof.
+  intros Hn Hnb. unfold run_once.
+  pose proof (pending_b fx beh rbeh 1 s nb Hn Hnb) as H1.
+  destruct (pending fx 1 beh rbeh s) as [s1 e1].
+  destruct (if (kin && pin s1) || (kout && pout s1)
+            then udp_io fx beh rbeh s1 (kin && pin s1) (kout && pout s1) else (s1, []))
+    as [s2 e2] eqn:E2.
+  destruct (pending fx 8 beh rbeh s2) as [s3 e3] eqn:E3.
+  destruct (if close_pending s3
+            then finish_close fx beh (set_io (pin s3) (pout s3) (fed s3) (active s3) (closing s3) false s3)
+            else (s3, [])) as [s4 e4] eqn:E4.
+  assert (bgood s nb (s4, e1 ++ e2 ++ e3 ++ e4)) as (nb' & R & L).
+  { apply (bgood_bind s nb s1 e1 s4 (e2 ++ e3 ++ e4)).
+    { destruct H1 as (nb1 & R1 & L1). exists nb1. auto. }
+    intros nb1 L1. apply (bgood_bind s1 nb1 s2 e2 s4 (e3 ++ e4)).
+    { rewrite <- E2. destruct ((kin && pin s1) || (kout && pout s1)); [now apply udp_io_b|].
+      exists nb1. simpl. auto. }
+    intros nb2 L2. apply (bgood_bind s2 nb2 s3 e3 s4 e4).
+    { rewrite <- E3. now apply pending_b. }
+    intros nb3 L3. rewrite <- E4. destruct (close_pending s3).
+    - pose proof (finish_close_soft fx beh
+                    (set_io (pin s3) (pout s3) (fed s3) (active s3) (closing s3) false s3)) as (F1 & F2).
+      apply bgood_soft; auto.
+    - exists nb3. simpl. auto. }
+  exists nb'. simpl in *. auto.
+Qed.
+
+Lemma run_b fx beh rbeh : forall l s nb,
+  no_stop_in_chunk_cb rbeh -> (nb <= next_buf s)%nat -> bgood s nb (run fx beh rbeh s l).
+Proof.
+  induction l as [|o l IH]; intros s nb Hn Hnb.
+  - exists nb. simpl. auto.
+  - assert (Hgen : forall s1 e1, bgood s nb (s1, e1) ->
+                    bgood s nb (let '(s2, e2) := run fx beh rbeh s1 l in (s2, e1 ++ e2))).
+    { intros s1 e1 H1. destruct (run fx beh rbeh s1 l) as [s2 e2] eqn:E2.
+      apply (bgood_bind s nb s1 e1 s2 e2 H1). intros nb1 L1. rewrite <- E2. now apply IH. }
+    destruct o; cbn [run];
+      try (match goal with |- bgood s nb (let '(_, _) := api fx s ?O in _) =>
+             pose proof (api_soft fx s O) as (A1 & A2); destruct (api fx s O) as [s1 e1];
+             apply Hgen; now apply bgood_soft end).
+    pose proof (run_once_b fx beh rbeh s nb kin kout Hn Hnb) as Ha.
+    destruct (run_once fx beh rbeh s kin kout) as [s1 e1]. now apply Hgen.
+Qed.
+
+(* C10_recv_buffers_returned *)
+Theorem model_accepted_buffers fx beh rbeh conn mm o r al ops :
+  no_stop_in_chunk_cb rbeh ->
+  exists nb, bmon_run bmon0 (snd (run fx beh rbeh (init conn mm o r al) ops)) = Some (None, nb).
+Proof.
+  intros Hn. destruct (run_b fx beh rbeh ops (init conn mm o r al) 0 Hn (Nat.le_0_l _)) as (nb & R & _).
+  eauto.
 Qed.
